@@ -14,3 +14,15 @@ add("C01", "exploration", "conservation oracle (ledger total computed two ways) 
 add("C03", "exploration", "threshold-grid oracle on store-read balances plus recorded vipnode_disconnect fan-out (runtime monitor over fake hosts)",
     "Connects and billed keep-alives with balance-after-charge placed at min-1/min/min+1/far on all deposit/credit splits and charge sizes; refusal iff below, reported balance equals stored balance, every connected peering host receives vipnode_disconnect(client).",
     "Deposits are modelled by a harness BalanceStore wrapper equivalent to contractPayment's deposit overlay.")
+add("C04", "exploration", "single-component alteration of reference-signed requests against the live endpoints, with an independent reference signer and a state digest (runtime monitor)",
+    "7 endpoints x 2 identity styles: the valid request must pass verification; each alteration of method, identity, key, nonce, every params leaf, every R||S byte, malformed signatures must be refused with a verification error and leave the pool digest unchanged.",
+    "Calls go through jsonrpc2.Local behind recover; V-byte changes and the legacy update form are only required not to crash / to be accepted (documented limits).")
+add("C06", "exploration", "state-digest comparison around injected refused requests in live sessions, plus follow-up request with a lower fresh nonce",
+    "Refused requests of 5 kinds injected against all 7 endpoints at random session points; digest of stats, nodes, peers, balances, links, NumRemotes and fake-host call logs must be identical before/after, and the victim's next lower-but-fresh nonce must still verify.",
+    "The digest covers what is reachable from RPCs for the session's id universe; nonce consumption is observed through the follow-up request.")
+add("C05", "exploration", "high-water-mark model on sequential signed RPCs; porcupine linearizability check of racing duplicate submissions; reopen and TTL scenarios",
+    "Sequential nonce classes around the mark and the freshness window; concurrent copies of the same signed request over Local and Remote connections checked with porcupine and an acceptance count; replay across close/reopen of an on-disk store; TTL scenario with the hooked freshness window.",
+    "Freshness boundary is only approached to 1 minute; concurrency coverage is what the scheduler produced (overlapping pairs are counted).")
+add("C07", "fault_enumeration", "conservation + per-withdrawal oracle over settle-handler event log with settlement failing at every attempt; porcupine on racing withdrawals",
+    "Sequential accrue/withdraw histories with the settlement failing at attempt k for each k; racing withdrawals with the settle handler holding the window open; paid = balance - fee once, nothing left, failed/refused => nothing paid and unchanged.",
+    "Settle handler modelled as the contract's OpSettle (replaces the deposit); constant fees only configured with a minimum above the fee, as pool.go does.")
